@@ -501,3 +501,73 @@ theorem dropClient_sess_self (h : Hub) (s : Nat) (y : Sess) : (dropClient h s y)
   cases y.conn <;> simp only [] <;> split <;> simp [setUserL]
 
 end SigModel.Hub
+
+namespace SigModel.Hub
+
+/-- Views change through join / leave events only: writing any other message to a session leaves every view alone. -/
+theorem sendTo_seenOf_other (a : Acc) (l : Nat) (m : Msg) (hj : ∀ ss, m ≠ .join ss) (hl : ∀ ss, m ≠ .leave ss) (k : Nat) :
+    seenOf (sendTo a l m).h k = seenOf a.h k := by
+  unfold sendTo
+  dsimp only
+  generalize target a.h l = s
+  have key : ∀ (x y : Sess), a.h.sess s = some x → y.seenJoin = x.seenJoin →
+      seenOf (setSess a.h s (some y)) k = seenOf a.h k := by
+    intro x y hx hy
+    unfold seenOf setSess
+    by_cases hk : k = s
+    · subst hk; simp [hx, hy]
+    · simp [hk]
+  cases hx : a.h.sess s with
+  | none => rfl
+  | some x =>
+    have hs := seen_other x m hj hl
+    dsimp only
+    generalize filterMessage x m = f at hs
+    obtain ⟨x1, om⟩ := f
+    dsimp only at hs ⊢
+    cases om with
+    | none => exact key x x1 hx hs
+    | some m1 =>
+      dsimp only
+      cases hc : x1.conn with
+      | some c => exact key x x1 hx hs
+      | none =>
+        dsimp only
+        split
+        · exact key x x1 hx hs
+        · exact key x _ hx hs
+
+theorem procClient_seenOf_other (a : Acc) (l : Nat) (am : AMsg)
+    (hj : ∀ ss, am ≠ .msg (.join ss)) (hl : ∀ ss, am ≠ .msg (.leave ss)) (k : Nat) :
+    seenOf (procClient a l am).h k = seenOf a.h k := by
+  unfold procClient
+  cases hx : a.h.sess l with
+  | none => rfl
+  | some x =>
+    cases am with
+    | perms ps =>
+      simp only
+      unfold seenOf setSess
+      by_cases hk : k = l
+      · subst hk; simp [hx]
+      · simp [hk]
+    | msg m =>
+      simp only
+      split
+      · exact sendTo_seenOf_other a l m (fun ss e => hj ss (e ▸ rfl)) (fun ss e => hl ss (e ▸ rfl)) k
+      · rfl
+
+/-- Publishing anything but a join / leave event to a room changes no session's view. -/
+theorem pubRoom_seenOf_other (a : Acc) (b : Nat) (r : String) (am : AMsg)
+    (hj : ∀ ss, am ≠ .msg (.join ss)) (hl : ∀ ss, am ≠ .msg (.leave ss)) (k : Nat) :
+    seenOf (pubRoom a b r am).h k = seenOf a.h k := by
+  unfold pubRoom
+  generalize a.h.roomL b r = ls
+  induction ls generalizing a with
+  | nil => rfl
+  | cons l ls ih =>
+    simp only [List.foldl_cons]
+    rw [ih (procClient a l am)]
+    exact procClient_seenOf_other a l am hj hl k
+
+end SigModel.Hub
